@@ -24,7 +24,8 @@ ASSUMPTIONS = ["at scale 1 every input is also handed over Fortran-ordered, as a
                "nearest-point-ness for the PSD cone is decided by the Moreau certificate (complete over competitors); "
                "for the affine set by equality with the pseudo-inverse projection",
                "inputs outside the block alphabet are not covered (the projections are non-linear)"]
-BOUNDS = {"quick": "Q1,Q3 all types, m=2..5 (pool^m tuples with pool cut 19/8/4/3 for m=2/3/4/5); Q2 state/povm m<=3/gate/mprocess m=2 reduced pool",
+BOUNDS = {"quick": "Q1,Q3 all types, m=2..5 (pool^m tuples with pool cut 19/8/4/3 for m=2/3/4/5); Q2 state/povm m<=3/gate/mprocess m=2 reduced pool; after_cache_deletion: 5 configurations x 6 tuples x all 72 histories of one or two "
+                   "CompositeSystem.delete_* calls between two projections",
           "thorough": "adds Q2 full pools, Q6 (qubit x qutrit) state/povm/gate/mprocess m=2, Q3g"}
 
 TOL = 1e-9
@@ -92,14 +93,21 @@ def families(tier, seed):
                 cases.append({"kind": kind, "sys": sysname, "m": m, "pool": ps, "scale": sc, "tuples": tuples[i:i + chunk]})
     # one fixed input (independent of VERIF_SEED) on which the recorded absolute-threshold finding manifests
     probe = [{"kind": "povm", "sys": "Q1", "m": 4, "pool": 4, "scale": 1e3, "tuples": [[2, 2, 2, 1]], "fixed_seed": 1}]
-    return [("projections", cases + probe)]
+    # E2-style histories on the CompositeSystem's lazily built tables: fill, delete one or two of them, project again
+    dele = []
+    for kind, sysname, m in (("state", "Q1", None), ("povm", "Q1", 2), ("gate", "Q1", None), ("mprocess", "Q1", 2), ("gate", "Q3", None)):
+        names = pool_names("full")
+        tuples = list(itertools.product(range(len(names)), repeat=m or 1))
+        step = max(1, len(tuples) // 6)
+        dele.append({"kind": kind, "sys": sysname, "m": m, "pool": "full", "tuples": tuples[::step][:6]})
+    return [("projections", cases + probe), ("after_cache_deletion", dele)]
 
 
 def guards(summary):
     g = []
     info = summary["info"]
     for k in ("clipped", "eq_violated", "already_feasible_ineq", "complex_blocks", "degenerate_blocks", "flag_true_checked",
-              "closures_checked", "variant_objects", "near_feasible_inputs"):
+              "closures_checked", "variant_objects", "near_feasible_inputs", "projected_after_deletion", "deletion_histories"):
         if info.get(k, 0) < 1:
             g.append("never seen: " + k)
     return g
@@ -115,6 +123,8 @@ def close(a, b, scale):
 
 
 def execute(family, p, seed):
+    if family == "after_cache_deletion":
+        return ex_deletion(p, seed)
     out = Out()
     seed = p.get("fixed_seed", seed)
     kind, sysname, m, sc = p["kind"], p["sys"], p["m"], p["scale"]
@@ -357,4 +367,57 @@ def execute(family, p, seed):
     out.nontrivial = out.info.get("_inner_nontrivial", 0) >= 0 and (out.info.get("clipped", 0) + out.info.get("eq_violated", 0)) > 0
     out.outcome = "ok" if not out.fails else "fail"
     out.digest = A.digest(*[np.frombuffer(d.encode(), dtype=np.uint8) for d in digs]) if digs else ""
+    return out
+
+
+def ex_deletion(p, seed):
+    """every history (fill the CompositeSystem's lazily built tables by projecting once; call one or two of its
+    delete_* methods, all ordered pairs; project again): both projections still equal the reference nearest points"""
+    out = Out()
+    kind, sysname, m = p["kind"], p["sys"], p["m"]
+    F = frame(kind, sysname, m)
+    names = pool_names(p["pool"])
+    bd = F.block_dim()
+    cfg = "%s:%s:m=%s" % (kind, sysname, m)
+    seen = set()
+    n_el = 0
+    for tup in p["tuples"]:
+        tup = tuple(tup)
+        x0 = F.from_blocks([block(bd, names[i], seed) for i in tup])
+        scale = max(1.0, float(np.abs(x0).max()))
+        xa, xb = F.PA(x0), F.PB(x0)
+        obj = F.make(x0)
+        c_sys = obj.composite_system
+        dels = sorted(n for n in dir(c_sys) if n.startswith("delete_") and callable(getattr(c_sys, n)))
+        if len(dels) < 2:
+            raise AssertionError("harness: CompositeSystem has no delete_* methods any more")
+        hists = [(d,) for d in dels] + list(itertools.product(dels, repeat=2))
+        for h in hists:
+            n_el += 1
+            out.count("deletion_histories")
+            obj = F.make(x0)
+            A.call(obj.calc_proj_ineq_constraint)
+            A.call(obj.calc_proj_eq_constraint)
+            for d in h:
+                getattr(obj.composite_system, d)()
+            for which, ref in (("ineq", xb), ("eq", xa)):
+                ok, r = A.call(getattr(obj, "calc_proj_%s_constraint" % which))
+                out.ops += 1
+                out.traces += 1
+                if not ok:
+                    sig = "obj.calc_proj_%s_constraint:raises:after-cache-deletion:%s" % (which, cfg)
+                    if sig not in seen:
+                        seen.add(sig)
+                        out.fail(sig, "tuple=%r after %r: %s" % (tup, h, A.fmt_exc(r)))
+                    continue
+                good, err = close(F.stacked(r), ref, scale)
+                if not good:
+                    sig = "obj.calc_proj_%s_constraint:not-nearest:after-cache-deletion:%s" % (which, cfg)
+                    if sig not in seen:
+                        seen.add(sig)
+                        out.fail(sig, "tuple=%r after fill + %r: err=%.3g against the reference projection" % (tup, h, err))
+                else:
+                    out.count("projected_after_deletion")
+    inner(out, max(0, n_el - 1))
+    out.outcome = "ok" if not out.fails else "fail"
     return out
